@@ -31,7 +31,111 @@ pub const TOKENS: [&str; 46] = [
 
 const DAYS_IN_RANGE: u64 = 2_958_466;
 
+// ------------------------------------------------------------------ hang watchdog
+//
+// A library call that never returns cannot be interrupted from inside its thread. Every worker
+// publishes (start time, expression, call) in a slot before each call; a watchdog thread scans
+// the slots and, when one call has been running for more than HANG_SECS (legitimate calls take
+// at most a few seconds: 2.96 M schedules), prints `ENGINE-HANG {json}` and exits with code 3,
+// which the check driver turns into a VIOLATION with a replay file.
+
+const HANG_SECS: u64 = 240;
+const SLOTS: usize = 256;
+
+/// `OHMC_HANG_SECS` overrides the threshold (used to try the watchdog out on a seeded hang).
+fn hang_secs() -> u64 {
+    std::env::var("OHMC_HANG_SECS").ok().and_then(|s| s.parse().ok()).unwrap_or(HANG_SECS)
+}
+
+struct Slot {
+    start_ms: std::sync::atomic::AtomicU64,
+    text: std::sync::Mutex<String>,
+    call: std::sync::Mutex<String>,
+}
+
+fn slots() -> &'static Vec<Slot> {
+    static S: std::sync::OnceLock<Vec<Slot>> = std::sync::OnceLock::new();
+    S.get_or_init(|| (0..SLOTS).map(|_| Slot { start_ms: 0.into(), text: Default::default(), call: Default::default() }).collect())
+}
+
+fn now_ms() -> u64 {
+    static T0: std::sync::OnceLock<std::time::Instant> = std::sync::OnceLock::new();
+    T0.get_or_init(std::time::Instant::now).elapsed().as_millis() as u64 + 1
+}
+
+fn my_slot() -> &'static Slot {
+    static NEXT: std::sync::atomic::AtomicUsize = std::sync::atomic::AtomicUsize::new(0);
+    thread_local! { static IDX: usize = NEXT.fetch_add(1, std::sync::atomic::Ordering::SeqCst) % SLOTS; }
+    &slots()[IDX.with(|i| *i)]
+}
+
+/// Mark the beginning of the evaluation of `text` on this thread.
+fn watch_expr(text: &str) {
+    *my_slot().text.lock().unwrap() = text.to_string();
+}
+
+fn watch_call(call: &str) {
+    let s = my_slot();
+    if let Ok(mut c) = s.call.try_lock() {
+        c.clear();
+        c.push_str(call);
+    }
+    s.start_ms.store(now_ms(), std::sync::atomic::Ordering::SeqCst);
+}
+
+fn watch_done() {
+    my_slot().start_ms.store(0, std::sync::atomic::Ordering::SeqCst);
+}
+
+pub fn start_watchdog() {
+    static STARTED: std::sync::Once = std::sync::Once::new();
+    STARTED.call_once(|| {
+        let _ = now_ms();
+        std::thread::spawn(|| loop {
+            std::thread::sleep(std::time::Duration::from_secs(2));
+            let now = now_ms();
+            for s in slots() {
+                let st = s.start_ms.load(std::sync::atomic::Ordering::SeqCst);
+                if st != 0 && now.saturating_sub(st) > hang_secs() * 1000 {
+                    let text = s.text.lock().map(|t| t.clone()).unwrap_or_default();
+                    let call = s.call.lock().map(|t| t.clone()).unwrap_or_default();
+                    println!("ENGINE-HANG {}", json!({"kind": "call_does_not_return", "case": {"expr": text, "call": call}, "detail": format!("`{text}`: {call} has been running for more than {} s (a legitimate call needs at most one schedule per day of the supported range, a few seconds)", hang_secs())}));
+                    std::process::exit(3);
+                }
+            }
+        });
+    });
+}
+
 fn parse_guard(s: &str, acc: &mut Acc) -> Option<opening_hours_syntax::rules::OpeningHoursExpression> {
+    let slot = my_slot();
+    if slot.start_ms.load(std::sync::atomic::Ordering::Relaxed) == 0 {
+        // (cheap: the string is only copied when a hang is being reported, see `parse_watch`)
+    }
+    parse_watch(s);
+    let r = parse_guard_inner(s, acc);
+    watch_done();
+    r
+}
+
+/// Publishing every one of 2·10⁸ strings would cost more than parsing them: publish one string in
+/// 64 (a parse that hangs hangs the worker, whose last published string is at most 63 strings
+/// behind — the report then names a string of the same shard, and the replay of the shard finds it).
+fn parse_watch(s: &str) {
+    thread_local! { static N: std::cell::Cell<u32> = const { std::cell::Cell::new(0) }; }
+    let n = N.with(|n| {
+        n.set(n.get().wrapping_add(1));
+        n.get()
+    });
+    if n % 64 == 0 {
+        watch_expr(s);
+        watch_call("parse (this or one of the next 63 strings of the enumeration)");
+    } else {
+        my_slot().start_ms.store(now_ms(), std::sync::atomic::Ordering::Relaxed);
+    }
+}
+
+fn parse_guard_inner(s: &str, acc: &mut Acc) -> Option<opening_hours_syntax::rules::OpeningHoursExpression> {
     match catch(|| opening_hours_syntax::parse(s)) {
         Ok(Ok(e)) => Some(e),
         Ok(Err(_)) => None,
@@ -140,7 +244,9 @@ impl Call<'_> {
     fn run<T>(&mut self, what: &str, arg: String, n_next: u64, f: impl FnOnce() -> T) -> Option<T> {
         self.calls += 1;
         let c0 = opening_hours::verif_schedule_count();
+        watch_call(what);
         let r = catch(f);
+        watch_done();
         let used = opening_hours::verif_schedule_count() - c0;
         if !self.bounded {
             *self.long_budget -= used as i64;
@@ -235,6 +341,7 @@ fn tz_instants(tz: Tz) -> Vec<(String, DateTime<Tz>)> {
 pub fn evaluate(text: &str, level: u8, base_budget: i64, sweep_step: i64, acc: &mut Acc) -> u64 {
     // base_budget == 0: no unbounded long-horizon call at all for this expression (7 expressions out of 8 in the
     // quick tier, 3 out of 4 in the thorough tier): one such call can cost 2.9 M schedules whatever the budget
+    watch_expr(text);
     let Ok(Ok(oh)) = catch(|| OpeningHours::parse(text)) else { return 0 };
     let mut calls = 0u64;
     let mut budget: i64 = if level >= 2 { base_budget * 8 } else { base_budget };
@@ -256,6 +363,7 @@ pub fn evaluate(text: &str, level: u8, base_budget: i64, sweep_step: i64, acc: &
     {
         let cur = std::cell::Cell::new(ymd(1900, 1, 1));
         let n = std::cell::Cell::new(0u64);
+        watch_call("schedule_at sweep");
         let r = catch(|| {
             let mut d = ymd(1900, 1, 1);
             while d <= ymd(2110, 12, 31) {
@@ -272,6 +380,7 @@ pub fn evaluate(text: &str, level: u8, base_budget: i64, sweep_step: i64, acc: &
                 d = d + Duration::days(sweep_step * 53);
             }
         });
+        watch_done();
         calls += n.get();
         if let Err(p) = r {
             acc.violate(Violation::new(
@@ -349,6 +458,7 @@ fn has_event(text: &str) -> bool {
 }
 
 pub fn run(cfg: &Cfg) -> Outcome {
+    start_watchdog();
     let t_start = std::time::Instant::now();
     let max_tokens = if cfg.quick() { 4 } else { 5 };
     let n = TOKENS.len();
@@ -520,6 +630,7 @@ pub fn run(cfg: &Cfg) -> Outcome {
 }
 
 pub fn replay(_cfg: &Cfg, case: &Value) -> Vec<Violation> {
+    start_watchdog();
     let mut acc = Acc::new();
     if let Some(s) = case.get("str").and_then(|v| v.as_str()) {
         parse_guard(s, &mut acc);
